@@ -81,6 +81,11 @@ type IXCase struct {
 	Steps  []IXStep     `json:"steps,omitempty"`
 	Synth  []SynthEntry `json:"synth,omitempty"`
 	Stride int          `json:"stride,omitempty"` // exhaustive: 1 = every byte
+	// synthetic: that many more small entries of varying size, derived from BulkSalt when the case
+	// runs (an index of the size of a real system: hundreds of KiB to MiB uncompressed, so that
+	// every internal buffer and window size of the persistence layer is crossed at many offsets)
+	Bulk     int    `json:"bulk,omitempty"`
+	BulkSalt uint64 `json:"bulk_salt,omitempty"`
 }
 
 var ixFonts = []string{
@@ -119,6 +124,9 @@ func (e *ixEngine) Generate(seed uint64, tier string, run int) (json.RawMessage,
 	if c.Family == "synthetic" {
 		c.Synth = genSynth(rg)
 		c.Stride = kernel.Pick(rk, []int{0, 0, 7, 31})
+		if rk.Chance(0.3) {
+			c.Bulk, c.BulkSalt, c.Stride = kernel.Pick(rk, []int{300, 3000, 12000, 25000}), rg.Uint64(), 0
+		}
 		return json.Marshal(c)
 	}
 	c.Roots = kernel.Pick(rk, [][]string{{""}, {""}, {"sub", ""}, {"other", "sub"}, {"", "sub/deep"}, {"link", ""}, {"sub"}})
@@ -1182,6 +1190,25 @@ func (w *ixWorld) runSynthetic() (*kernel.Violation, error) {
 		}
 		entries = append(entries, e)
 	}
+	for k := 0; k < w.c.Bulk; k++ {
+		h := kernel.SplitMix64(w.c.BulkSalt + uint64(k))
+		e := fontscan.VerifFileEntry{Path: fillString(2+int(h%61), k), ModTime: ixBase + int64(h>>20)}
+		for j := int(h >> 8 % 3); j > 0; j-- {
+			fp := fontscan.Footprint{Family: fillString(1+int(h>>12%23), j+k)}
+			fp.Location = fontscan.Location{File: e.Path, Index: uint16(j)}
+			for n := int(h >> 16 % 5); n > 0; n-- {
+				fp.Runes.Add(rune(h>>24%0x2000) + rune(n)*0x101)
+			}
+			if h>>32%2 == 1 {
+				fp.Scripts = append(fp.Scripts, language.Latin)
+			}
+			e.Footprints = append(e.Footprints, fp)
+		}
+		entries = append(entries, e)
+	}
+	if w.c.Bulk > 0 {
+		w.out.Count("probe.synthetic_index_bulk", 1)
+	}
 	idx := fontscan.VerifMakeIndex(entries)
 	var buf bytes.Buffer
 	var serr error
@@ -1233,6 +1260,14 @@ func (e *ixEngine) Shrink(raw json.RawMessage, class string, test func(json.RawM
 			cand.Steps = s
 			return try(cand)
 		}, 300)
+	}
+	for c.Bulk > 0 {
+		cand := c
+		cand.Bulk = c.Bulk * 3 / 4
+		if !try(cand) {
+			break
+		}
+		c = cand
 	}
 	if len(c.Synth) > 0 {
 		c.Synth = kernel.DDMin(c.Synth, func(s []SynthEntry) bool {
